@@ -370,7 +370,7 @@ func (in *Interp) feasible(extra *Term) (map[string]uint64, string) {
 	// split disjunctions: each disjunct is usually over fewer variables
 	if extra.op == OpOr || (extra.op == OpNot && extra.a.op == OpAnd) {
 		var ds []*Term
-		if in.disjuncts(extra, &ds, 24) && len(ds) > 1 {
+		if in.disjuncts(extra, &ds, 96) && len(ds) > 1 {
 			unknown := false
 			for _, d := range ds {
 				m, r := in.feasible(d)
@@ -680,6 +680,7 @@ func (in *Interp) runPath(fn *ssa.Function, item *WorkItem) (res *PathResult) {
 	in.dom = map[*Term]*[4]uint64{}
 	in.domVer = map[*Term]int{}
 	in.simpMemo = map[*Term]simpEnt{}
+	in.canonMemo = nil
 	in.prefix = item.Prefix
 	in.pos = 0
 	in.trace = in.trace[:0]
